@@ -412,7 +412,11 @@ def analyse_instance(ctx, mod, k, inst, has_conv, findings):
 
 
 FLOAT_FACTORS = [Fraction(12), Fraction(1000), Fraction(3, 2), Fraction(5, 9), Fraction(7, 3), Fraction(10 ** 6), Fraction(2 ** 31 - 1),
-                 Fraction(1, 12), Fraction(1, 1000), Fraction(2), Fraction(381, 1250), Fraction(1609344, 1000), "pi/180", "180/pi"]
+                 Fraction(1, 12), Fraction(1, 1000), Fraction(2), Fraction(381, 1250), Fraction(1609344, 1000), "pi/180", "180/pi",
+                 # divisors (and factors) beyond the largest finite value of the rep: the quotient is an ordinary value
+                 "2^-140", "2^-1060", "2^130", "3/2^140"]
+BIG_FLOAT_FACTORS = {"2^-140": ("au::pow<-140>(au::mag<2>())", Fraction(1, 2 ** 140)), "2^-1060": ("au::pow<-1060>(au::mag<2>())", Fraction(1, 2 ** 1060)),
+                     "2^130": ("au::pow<130>(au::mag<2>())", Fraction(2 ** 130)), "3/2^140": ("au::mag<3>() * au::pow<-140>(au::mag<2>())", Fraction(3, 2 ** 140))}
 
 
 def float_clause(ctx, rnd):
@@ -430,6 +434,8 @@ def float_clause(ctx, rnd):
             mg = "au::Magnitude<au::Pi>{} / au::mag<180>()"
         elif f == "180/pi":
             mg = "au::mag<180>() / au::Magnitude<au::Pi>{}"
+        elif f in BIG_FLOAT_FACTORS:
+            mg = BIG_FLOAT_FACTORS[f][0]
         else:
             mg = "au::mag<%dULL>() / au::mag<%dULL>()" % (f.numerator, f.denominator)
         blocks.append((k, "struct FB%d : au::UnitImpl<au::Length> {}; struct FA%d : decltype(FB%d{} * (%s)) {};\n"
@@ -443,9 +449,12 @@ def float_clause(ctx, rnd):
     PIV = Fraction(314159265358979323846264338327950288, 10 ** 35)
     for k in alive:
         t, f = insts[k]
-        fe = PIV / 180 if f == "pi/180" else 180 / PIV if f == "180/pi" else f
+        fe = PIV / 180 if f == "pi/180" else 180 / PIV if f == "180/pi" else BIG_FLOAT_FACTORS[f][1] if f in BIG_FLOAT_FACTORS else f
         key = "%s:%s" % (t, f)
-        roots = {nm: dag.build(mod.funcs["%s_%d" % (nm, k)], mod).ret for nm in ("fconv", "fovf", "ftrunc", "flossy")}
+        # (a divisor the rep cannot hold is divided in long double, which travels through memory in
+        #  the IR: for those factors the conversion itself is taken from the exact model)
+        big = f in BIG_FLOAT_FACTORS
+        roots = {nm: dag.build(mod.funcs["%s_%d" % (nm, k)], mod).ret for nm in (("fovf", "ftrunc", "flossy") if big else ("fconv", "fovf", "ftrunc", "flossy"))}
         part, _ = fcells.analyse(roots, t)
         mx = fcells.fmax(t)
         for cell, rlo, rhi in part:
@@ -462,6 +471,9 @@ def float_clause(ctx, rnd):
                 if r["flossy"] != (r["fovf"] | r["ftrunc"]):
                     ctx.violation(key + "|disjunction", "is_conversion_lossy is not overflow || truncate for %s at x=%r" % (key, float(x)))
                     ok = False
+                if big:
+                    r = dict(r)
+                    r["fconv"] = fcells.INF if abs(x) * fe > mx * (1 + Fraction(1, 2 ** 20)) else 0
                 if not r["fovf"]:
                     if r["fconv"] in (fcells.INF, fcells.NINF, fcells.NAN):
                         ctx.violation(key + "|overflow-missed", "will_conversion_overflow is FALSE for %s x=%r although x times %s is %s (beyond the largest finite %s)"
